@@ -275,6 +275,44 @@ func vpC09Chg(ti int, only []string) {
 // vpSameField: are field f of a and b structurally equal? (all other fields are equal by construction)
 func vpSameField(a, b Item, f int) bool { return vpEqItem(a, b) }
 
+// a text that differs from the original in nothing but the case of one letter is a different text
+func vpH_C09_text_case() {
+	c := vpLower()
+	lo := Content{'P', c, 'l'}
+	up := Content{'P', c - 'a' + 'A', 'l'}
+	mk := func(t Content, form int) NaturalLanguageValues {
+		switch form {
+		case 0:
+			return NaturalLanguageValues{{Ref: NilLangRef, Value: t}}
+		case 1:
+			return NaturalLanguageValues{{Ref: "en", Value: t}}
+		}
+		return NaturalLanguageValues{{Ref: "en", Value: Content("same")}, {Ref: "fr", Value: t}}
+	}
+	form := vpChoice(3)
+	var x, y Item
+	cell := ""
+	switch vpChoice(6) {
+	case 0:
+		x, y, cell = &Object{ID: "https://h.ex/o", Type: NoteType, Name: mk(lo, form)}, &Object{ID: "https://h.ex/o", Type: NoteType, Name: mk(up, form)}, "Object.Name"
+	case 1:
+		x, y, cell = &Object{ID: "https://h.ex/o", Type: NoteType, Summary: mk(lo, form)}, &Object{ID: "https://h.ex/o", Type: NoteType, Summary: mk(up, form)}, "Object.Summary"
+	case 2:
+		x, y, cell = &Activity{ID: "https://h.ex/o", Type: LikeType, Content: mk(lo, form)}, &Activity{ID: "https://h.ex/o", Type: LikeType, Content: mk(up, form)}, "Activity.Content"
+	case 3:
+		x, y, cell = &Actor{ID: "https://h.ex/o", Type: PersonType, PreferredUsername: mk(lo, form)}, &Actor{ID: "https://h.ex/o", Type: PersonType, PreferredUsername: mk(up, form)}, "Actor.PreferredUsername"
+	case 4:
+		x, y, cell = &Link{ID: "https://h.ex/o", Type: MentionType, Href: "https://h.ex/l", Name: mk(lo, form)}, &Link{ID: "https://h.ex/o", Type: MentionType, Href: "https://h.ex/l", Name: mk(up, form)}, "Link.Name"
+	default: // nested: the object of an activity
+		x = &Activity{ID: "https://h.ex/a", Type: CreateType, Object: &Object{ID: "https://h.ex/o", Type: NoteType, Content: mk(lo, form)}}
+		y = &Activity{ID: "https://h.ex/a", Type: CreateType, Object: &Object{ID: "https://h.ex/o", Type: NoteType, Content: mk(up, form)}}
+		cell = "Activity.Object.Content"
+	}
+	vpAssert("text-case/unequal/"+cell, !ItemsEqual(x, y) && !ItemsEqual(y, x))
+	vpAssert("text-case/texts-unequal/"+cell, !mk(lo, form).Equals(mk(up, form)) && !lo.Equals(up))
+	vpReach("end")
+}
+
 func vpH_C09_chg_Object() { vpC09Chg(vpTypeIndex("Object"), nil) }
 func vpH_C09_chg_Activity() {
 	vpC09Chg(vpTypeIndex("Activity"), []string{"Actor", "Object", "Target", "Result", "Origin", "Instrument"})
